@@ -470,6 +470,17 @@ def items(trees):
     add("carve_WD_edge_is_WDmax", "x", lambda: carve_item("WD_edge"))
     add("carve_BH_edge_is_BHmin", "x", lambda: carve_item("BH_edge"))
 
+    def nseg_item():
+        fn = find_def(ms, "MassBins.__init__")
+        a = value_of(find_assign(fn, "N_MS_breaks"))
+        if ast.unparse(a) != "len(m_break) - 1":
+            raise Unsupported(f"MassBins: the number of stellar segments is now `{ast.unparse(a)}`, not len(m_break) - 1")
+        calls = [n for n in own_nodes(fn) if isinstance(n, ast.Call) and ast.unparse(n.func) == "_divide_bin_sizes"]
+        if len(calls) != 1 or [ast.unparse(x) for x in calls[0].args] != ["nbin_MS", "N_MS_breaks"]:
+            raise Unsupported("MassBins: an integer bin count is no longer divided by _divide_bin_sizes(nbin_MS, N_MS_breaks)")
+        return "(1 : α)"
+    add("bins_nseg_is_breaks_minus_one", "x", nseg_item)
+
     def lookup_item(which):
         fn = find_def(ms, "MassBins.determine_index")
         if which == "le":
